@@ -19,9 +19,9 @@ import (
 
 // C01Cmd is one command of a C01 session with the output the device gives.
 type C01Cmd struct {
-	Cmd  string     `json:"cmd"`
-	Out  []peer.Tok `json:"out"`
-	Lines []string  `json:"lines"` // the output's lines as they must appear in a result (by construction)
+	Cmd   string     `json:"cmd"`
+	Out   []peer.Tok `json:"out"`
+	Lines []string   `json:"lines"` // the output's lines as they must appear in a result (by construction)
 }
 
 // C01 scenario: a generic driver session of 1..6 commands against the echo device.
@@ -314,7 +314,24 @@ func c01Probes(env *Env, sc *C01, tr *simnet.T) {
 
 func init() {
 	register(&Prop{
-		ID:  "C01",
+		ID: "C01",
+		Meta: Meta{
+			Level: "exploration",
+			Rule:  "each run = one generated generic-driver session (1..6 commands, generated outputs with CR/escape/UTF-8/blank-line tokens, echo style, strip/exact settings, read size, read delay, search depth) x one seeded segmentation+latency plan x one seeded schedule of the reader/operation goroutines; non-trivial = the stream was cut or delayed or at least one scheduling decision had >= 2 enabled goroutines; distinct = distinct (scenario shape, interleaving digest)",
+			Components: map[string]string{
+				"real": "scrapligo channel, util.Queue, transport wrapper, generic driver, response (built from /repo with tag verif)",
+				"stub": "SimTransport (custom transport.Implementation), echoing CLI device model, fake clock (testing/synctest), seeded controller releasing one goroutine at a time",
+			},
+			Assumptions: []string{
+				"outputs contain no '#', '>' or '$' so no output line can look like a prompt (property's precondition)",
+				"no read cuts inside an escape sequence; read size >= 16 when escapes are generated",
+				"escape sequences come from a fixed standard set (SGR, erase, cursor moves, DEC private modes, OSC title)",
+				"every command carries a byte ('_') that occurs in no prompt or banner",
+				"read delay >= 20us",
+			},
+			QuickRuns: 4000,
+			ThoroughS: 600,
+		},
 		Gen: genC01,
 		New: func() Scenario { return &C01{} },
 		Run: runC01,
